@@ -231,7 +231,7 @@ def coq_term(c):
     raise ValueError(rt)
 
 
-HEADER = ("From Coq Require Import List ZArith Bool PrimFloat.\nFrom RV Require Import Common.FloatNum C02.Run.\n"
+HEADER = ("From Coq Require Import List ZArith Bool PrimFloat.\nFrom RV Require Import Common.FloatNum C02.Run C02.RunWH C02.RunTree C15.Tree.\n"
           "Import ListNotations.\nOpen Scope float_scope.\n")
 
 
@@ -297,6 +297,157 @@ def L_cases(rng, k):
     return out
 
 
+def tree_layout_ok():
+    """struct reb_treecell of the current tree.h == the ctypes mirror (tools/c15_lib.TreeCell) used to walk the library's tree"""
+    import c15_lib as L
+    try:
+        fields = L.parse_treecell_fields(open(os.path.join(vlib.REPO, "src", "tree.h")).read())
+        ok = ([f[1] for f in fields] == L.EXPECTED_FIELDS and
+              [f[0] for f in fields] == ["double"] * 8 + ["struct reb_treecell *", "int", "int"] and fields[8][2] == "[8]")
+        return ok and ctypes.sizeof(L.TreeCell) == 8 * 8 + 8 * 8 + 8, str(fields)
+    except RuntimeError as e:
+        return False, str(e)
+
+
+def cell_term(d):
+    if d is None:
+        return "None"
+    if d["pt"] >= 0:
+        return "(Some (Leaf %d%%nat))" % d["pt"]
+    return "(Some (Node (%d)%%Z [%s]))" % (-d["pt"], "; ".join(cell_term(c) for c in d["oct"]))
+
+
+def tree_cases(rng, rebound, k, nmax):
+    """REB_GRAVITY_TREE on random systems: accelerations + every cell's (m,mx,my,mz) read by walking the library's tree
+    through ctypes, vs C02.TreeModel / C15.Tree.gdata on the dumped tree SHAPE (Leaf/Node/oct order only)."""
+    import c15_lib as L
+    out = []
+    clib = rebound.clibrebound
+    for t in range(k):
+        n = rng.choice([0, 1, 2, 3, 4, 5, 7, 9, 14, 23, nmax]) if rng.random() < 0.85 else rng.randint(0, nmax)
+        layout = rng.choice([(1, 1, 1), (1, 1, 1), (2, 1, 1), (1, 2, 1), (2, 2, 1), (1, 1, 3), (2, 3, 2)])
+        root = rng.choice([1.0, 4.0, 100.0, rng.uniform(0.5, 50)])
+        ghost, bnd = rng.choice([((0, 0, 0), "open"), ((0, 0, 0), "open"), ((1, 0, 0), "periodic"), ((1, 1, 0), "periodic"), ((0, 1, 1), "open")])
+        if n > 14:
+            ghost = (min(ghost[0], 1), 0, 0)
+        theta2 = rng.choice([0.0, 0.0, 0.25, 1.0, 0.01, rng.uniform(0, 2), 4.0])
+        G = rng.choice([1.0, 6.674e-11, rng.uniform(0.1, 10)])
+        soft = rng.choice([0.0, 0.0, 10 ** rng.uniform(-4, -1)])
+        ms = gen_masses(rng, n)
+        half = [0.5 * root * layout[a] for a in range(3)]
+        cl = rng.random() < 0.4      # clustered: deeper trees
+        P = []
+        for i in range(n):
+            if cl and i > 0 and rng.random() < 0.6:
+                q = P[rng.randrange(i)]
+                P.append([min(max(q[a] + rng.gauss(0, 1e-3) * half[a], -half[a] * 0.999), half[a] * 0.999) for a in range(3)])
+            else:
+                P.append([rng.uniform(-half[a], half[a]) * 0.999 for a in range(3)])
+        sim = rebound.Simulation()
+        sim.G = G; sim.softening = soft
+        sim.configure_box(root, *layout)
+        sim.boundary = bnd
+        sim.N_ghost_x, sim.N_ghost_y, sim.N_ghost_z = ghost
+        sim.gravity = "tree"
+        sim.opening_angle2 = theta2
+        for i in range(n):
+            sim.add(m=ms[i], x=P[i][0], y=P[i][1], z=P[i][2])
+        if sim.N != n:
+            del sim
+            continue
+        clib.reb_simulation_update_tree(ctypes.byref(sim))
+        clib.reb_simulation_update_tree_gravity_data(ctypes.byref(sim))
+        clib.reb_simulation_update_acceleration(ctypes.byref(sim))
+        ps = sim.particles
+        exp = []
+        for i in range(n):
+            exp += [ps[i].ax, ps[i].ay, ps[i].az]
+        forest = L.dump_tree(sim) if n > 0 else None
+        if forest is None:
+            forest = [None] * (layout[0] * layout[1] * layout[2])
+        for c in forest:
+            pre = []
+            L.gravity_dump_preorder(c, pre)
+            for g in pre:
+                exp += list(g)
+        parts = "[" + "; ".join("(%s, %s, %s, %s)" % (vlib.fhex(ps[i].m), vlib.fhex(ps[i].x), vlib.fhex(ps[i].y), vlib.fhex(ps[i].z))
+                                 for i in range(n)) + "]"
+        del sim
+        F = vlib.fhex
+        bx, by, bz = root * float(layout[0]), root * float(layout[1]), root * float(layout[2])
+        term = "(runTree %s %s %s %s %s %s %d %d %d %s [%s] %s)" % (
+            F(G), F(soft), F(theta2), F(bx), F(by), F(bz), ghost[0], ghost[1], ghost[2], F(root),
+            "; ".join(cell_term(c) for c in forest), parts)
+        depth = max([L.depth_of(c) for c in forest] + [0])
+        lv = []
+        for c in forest:
+            L.leaves_of(c, lv)
+        once = sorted(lv) == list(range(n))      # hypothesis of C02_tree_theta0_eq_spec on this forest
+        rep = {"routine": "tree", "N": n, "root_size": root, "layout": layout, "ghost": ghost, "boundary": bnd, "theta2": theta2,
+               "G": float(G).hex(), "soft": float(soft).hex(), "ms": [float(m).hex() for m in ms],
+               "pos": [[float(v).hex() for v in q] for q in P], "library": [float(v).hex() for v in exp[:3 * n]]}
+        out.append((term, exp, ("tree", n, layout, ghost, theta2, depth, once), rep))
+    return out
+
+
+def wh_cases(rng, rebound, k):
+    """reb_whfast_interaction_step (Jacobi coordinates) on a hand-filled p_jh array vs the model C02.WHModel.
+    Returns (coq term, expected flat velocities of p_j[1..N-1], label)."""
+    out = []
+    clib = rebound.clibrebound
+    clib.reb_whfast_interaction_step.argtypes = [ctypes.c_void_p, ctypes.c_double]
+    clib.reb_whfast_interaction_step.restype = None
+    for t in range(k):
+        n = rng.choice([1, 2, 3, 3, 4, 5, 8, 13])
+        gj = rng.random() < 0.4
+        tp = rng.randint(0, 1)
+        na_raw = rng.choice([-1, -1, n, rng.randint(1, n)])
+        nact = n if (na_raw == -1 or tp == 1) else na_raw
+        G = rng.choice([1.0, 39.476926421373, rng.uniform(0.1, 10)])
+        soft = rng.choice([0.0, 0.0, 10 ** rng.uniform(-4, -1)])
+        dt = rng.choice([0.01, -0.37, rng.uniform(-1, 1)])
+        ms = gen_masses(rng, n)
+        if ms[0] == 0.0:
+            ms[0] = 1.0
+        acc = [[rng.gauss(0, 1) for _ in range(n)] for _ in range(3)]
+        pm = [m * rng.choice([1.0, 1.0, rng.uniform(0.5, 2)]) for m in ms]     # p_j masses need not equal particle masses
+        pq = [[rng.gauss(0, 3) for _ in range(n)] for _ in range(6)]
+        sim = rebound.Simulation()
+        sim.G = G; sim.softening = soft
+        for i in range(n):
+            sim.add(m=ms[i], x=rng.gauss(0, 1), y=rng.gauss(0, 1), z=rng.gauss(0, 1))
+        sim.N_active = na_raw; sim.testparticle_type = tp
+        sim.integrator = "whfast"
+        sim.gravity = "jacobi" if gj else "basic"
+        ps = sim.particles
+        for i in range(n):
+            ps[i].ax, ps[i].ay, ps[i].az = acc[0][i], acc[1][i], acc[2][i]
+        pj = (rebound.Particle * n)()
+        for i in range(n):
+            pj[i].m = pm[i]
+            pj[i].x, pj[i].y, pj[i].z, pj[i].vx, pj[i].vy, pj[i].vz = (pq[c][i] for c in range(6))
+        null = ctypes.POINTER(rebound.Particle)()
+        try:
+            sim.ri_whfast._p_jh = ctypes.cast(pj, ctypes.POINTER(rebound.Particle))
+            clib.reb_whfast_interaction_step(ctypes.byref(sim), ctypes.c_double(dt))
+            exp = []
+            for i in range(1, n):
+                exp += [pj[i].vx, pj[i].vy, pj[i].vz]
+        finally:
+            sim.ri_whfast._p_jh = null
+            del sim
+        F = vlib.fhex
+        term = "(runWH %s %s %s %s %d %s %s %s %s %s %s)" % (
+            F(G), F(soft), F(dt), cb(gj), nact, vlib.flist(ms), vlib.flist(acc[0]), vlib.flist(acc[1]), vlib.flist(acc[2]),
+            vlib.flist(pm), " ".join(vlib.flist(pq[c]) for c in range(6)))
+        rep = {"routine": "whfast_interaction", "N": n, "N_active": na_raw, "testparticle_type": tp, "gravity_jacobi": gj,
+               "G": float(G).hex(), "soft": float(soft).hex(), "dt": float(dt).hex(), "ms": [float(m).hex() for m in ms],
+               "acc": [[float(v).hex() for v in a] for a in acc], "p_j_m": [float(m).hex() for m in pm],
+               "p_j_xyzv": [[float(v).hex() for v in a] for a in pq], "library": [float(v).hex() for v in exp]}
+        out.append((term, exp, ("whfast_interaction", n, na_raw, tp, gj), rep))
+    return out
+
+
 # ----------------------------------------------------------------------------------------------- exact reference
 def D(x):
     return Decimal(x)
@@ -313,7 +464,7 @@ def spec_sources(n, na, tp, ign):
     return [[j for j in range(n) if j != i and not ignored(i, j) and (j < na or (tp and i < na))] for i in range(n)]
 
 
-def spec_acc(c, sources=None, weight=None):
+def spec_acc(c, sources=None, weight=None, self_images_in_mag=False):
     """pairwise softened Newtonian sum in 60-digit decimals. Returns (acc[i][k], mag[i]) where mag[i] is the sum of
     the absolute values of the terms (the amplification scale of the floating-point sum)."""
     n = c["N"]
@@ -332,6 +483,13 @@ def spec_acc(c, sources=None, weight=None):
     acc = [[D(0)] * 3 for _ in range(n)]
     mag = [D(0)] * n
     for i in range(n):
+        if self_images_in_mag:
+            # a tree cell accepted as a monopole in a shifted box contains the particle's own image (the direct sum leaves
+            # self-images out; over a symmetric ghost range they cancel): they belong to the scale of the approximation error
+            for s_ in shifts:
+                if s_[0] != 0 or s_[1] != 0 or s_[2] != 0:
+                    r2 = s_[0] * s_[0] + s_[1] * s_[1] + s_[2] * s_[2] + e2
+                    mag[i] += G * M[i] / (r2 * r2.sqrt()) * (abs(s_[0]) + abs(s_[1]) + abs(s_[2]))
         for j in sources[i]:
             w = D(1) if weight is None else weight(i, j)
             for s in shifts:
@@ -494,7 +652,7 @@ def searcher(ctx, rebound, rng):
             full = dict(c); full["routine"] = "basic"; full["ign"] = 0
             if c["boundary"] == "open":
                 full["boundary"] = "none"
-            acc, mag = spec_acc(full)
+            acc, mag = spec_acc(full, self_images_in_mag=(c["theta2"] != 0.0))
             if acc is None:
                 continue
             nb = (2 * c["ghost"][0] + 1)
@@ -514,6 +672,61 @@ def searcher(ctx, rebound, rng):
         ctx.nontrivial.add(("search", kind, min(n, 9), na_eff == n, tp, ign))
         if key:
             fails.append((n, key, replay_obj(c, failing=str(info))))
+    # WHFast composes JACOBI gravity and BASIC gravity + its own Jacobi term to the same map (theorem
+    # C02_jacobi_eq_basic_plus_whterm: no softening, all active): a few steps of either must agree to rounding
+    for t in range(ctx.scale(40, 400)):
+        n = rng.choice([2, 3, 4, 6, 9])
+        ms = [rng.uniform(0.5, 2)] + [10 ** rng.uniform(-7, -2.5) for _ in range(n - 1)]
+        orb = []
+        a = rng.uniform(0.5, 1.5)
+        for i in range(1, n):
+            orb.append((a, rng.uniform(0, 0.2), rng.uniform(0, 0.2), rng.uniform(0, 6.28), rng.uniform(0, 6.28), rng.uniform(0, 6.28)))
+            a *= rng.uniform(1.4, 2.0)
+        Gv = rng.choice([1.0, 39.476926421373])
+        res = {}
+        for grav in ("jacobi", "basic"):
+            sim = rebound.Simulation()
+            sim.G = Gv
+            sim.add(m=ms[0])
+            for i in range(1, n):
+                a_, e_, inc_, O_, o_, f_ = orb[i - 1]
+                sim.add(m=ms[i], a=a_, e=e_, inc=inc_, Omega=O_, omega=o_, f=f_)
+            sim.integrator = "whfast"
+            sim.gravity = grav
+            sim.dt = 0.013 * (1.0 if Gv == 1.0 else 1 / 6.28)
+            for _ in range(3):
+                sim.step()
+            res[grav] = [c for p in sim.particles for c in (p.x, p.y, p.z, p.vx, p.vy, p.vz)]
+            del sim
+        ctx.evaluations += 1
+        ctx.nontrivial.add(("search", "whstep", n))
+        scale = max(abs(v) for v in res["basic"]) or 1.0
+        worst = max(abs(u - v) for u, v in zip(res["jacobi"], res["basic"]))
+        if not worst <= 2e-13 * scale:
+            fails.append((n, "whfast:jacobi_vs_basic", {"routine": "whstep", "N": n, "G": Gv, "masses": [m.hex() for m in ms], "orbits": orb,
+                                                        "failing": "max |state difference| %.3e after 3 WHFast steps" % worst}))
+    # REB_GRAVITY_TREE with test particles: the documentation ("Only active particles contribute to the force", "Test-particles
+    # never feel each other") and BASIC/COMPENSATED honour N_active/testparticle_type; the tree walk does not read them.
+    for t in range(3):
+        n = rng.choice([3, 4, 6])
+        na = rng.randint(1, n - 1)
+        tp = rng.randint(0, 1)
+        c = base_case(rng, "tree", n, na, tp, 0, (0, 0, 0), "open", (100.0, 1, 1, 1))
+        c["theta2"] = 0.0
+        c["ms"] = [rng.uniform(1e-3, 1.0) for _ in range(n)]
+        try:
+            got = lib_eval(rebound, c)
+        except RuntimeError:
+            continue
+        full = dict(c); full["routine"] = "basic"; full["boundary"] = "none"
+        acc, mag = spec_acc(full)
+        ctx.evaluations += 1
+        if acc is None:
+            continue
+        bad = compare_spec(got, acc, mag, n, n + 40)
+        if bad:
+            ctx.violation("tree:N_active_ignored", replay_obj(c, failing=str(bad)), True,
+                          "REB_GRAVITY_TREE ignores N_active/testparticle_type: massive test particles pull on every particle")
     if fails:
         fails.sort(key=lambda f: f[0])
         seen = set()
@@ -567,7 +780,7 @@ def jacobi_reference(c):
 # ----------------------------------------------------------------------------------------------- main
 def run(ctx):
     libdir = ctx.lib(tag="c02")   # own build directory: concurrent checks with another VERIF_REPO purge lib-default-*
-    proved = ctx.prove("C02", extra_targets=["C02/Run.vo"])
+    proved = ctx.prove("C02", extra_targets=["C02/Run.vo", "C02/RunWH.vo", "C02/RunTree.vo"])
     sys.path.insert(0, libdir)
     import rebound
     rng = ctx.rng
@@ -590,8 +803,42 @@ def run(ctx):
         Lg.restype = ctypes.c_double
         Lg.argtypes = [ctypes.c_void_p, ctypes.c_double, ctypes.c_double]
         items += [("(%s %s %s)" % (run, vlib.fhex(d), vlib.fhex(dc)), [Lg(None, d, dc)]) for d, dc in lc]
+    # L_infinity: libm's exp is an oracle input of the model (math.exp is the same glibc function the library calls)
+    import numpy as np
+    Li = rebound.clibrebound.reb_integrator_mercurius_L_infinity
+    Li.restype = ctypes.c_double
+    Li.argtypes = [ctypes.c_void_p, ctypes.c_double, ctypes.c_double]
+    with np.errstate(all="ignore"):
+        for d, dc in lc:
+            y = float((np.float64(d) - np.float64(0.1) * np.float64(dc)) / (np.float64(0.9) * np.float64(dc)))
+            e1 = e2 = 0.0
+            if 0.0 <= y <= 1.0:
+                e1 = math.exp(float(np.float64(-1.0) / np.float64(y)))
+                e2 = math.exp(float(np.float64(-1.0) / (np.float64(1.0) - np.float64(y))))
+            items.append(("(runLinf %s %s %s %s)" % (vlib.fhex(e1), vlib.fhex(e2), vlib.fhex(d), vlib.fhex(dc)), [Li(None, d, dc), y]))
+    labels = {}
+    replays = {}
+    for term, exp, lab, rep in wh_cases(rng, rebound, ctx.scale(300, 3000)):
+        labels[len(items)] = lab
+        replays[len(items)] = rep
+        items.append((term, exp))
+        ctx.case(key=lab, nontrivial=lab[1] >= 2)
+    lay_ok, lay_detail = tree_layout_ok()
+    ctx.obligation("regenerate:struct reb_treecell layout of tree.h == ctypes mirror used to walk the library's tree", lay_ok, lay_detail)
+    tcost = {}
+    if lay_ok:
+        for term, exp, lab, rep in tree_cases(rng, rebound, ctx.scale(400, 3000), ctx.scale(40, 150)):
+            labels[len(items)] = lab
+            replays[len(items)] = rep
+            tcost[len(items)] = 5 + lab[1] ** 2 * (2 * lab[3][0] + 1) * (2 * lab[3][1] + 1) * (2 * lab[3][2] + 1) * max(1, lab[5])
+            items.append((term, exp))
+            ctx.case(key=lab[:5], nontrivial=lab[1] >= 2)
+        notonce = [lab[:5] for lab in labels.values() if lab[0] == "tree" and not lab[6]]
+        ctx.obligation("hypothesis:every particle index occurs exactly once among the leaves of every dumped forest", not notonce, str(notonce[:5]))
     # chunks balanced by cost ~ N^2 * boxes
     def cost(i):
+        if i in tcost:
+            return tcost[i]
         if i >= len(cases):
             return 1
         c = cases[i]
@@ -621,12 +868,14 @@ def run(ctx):
             bad_total += [idx[b] for b in bad]
     ctx.traces = len(items) if corr_ok else 0
     def describe(i):
+        if i in labels:
+            return labels[i]
         if i >= len(cases):
-            return ("L_mercury/C4/C5",) + lc[(i - len(cases)) % len(lc)]
+            return ("L_mercury/C4/C5/infinity",) + lc[(i - len(cases)) % len(lc)]
         c = cases[i]
         return (c["routine"], c["N"], c["nact_raw"], c["tp"], c["ign"], c["ghost"])
     ctx.obligation("correspondence:C02 model(binary64) == reb_simulation_update_acceleration bit-for-bit on %d cases "
-                   "(+%d values each of L_mercury, L_C4, L_C5)" % (len(cases), len(lc)), corr_ok and not bad_total,
+                   "(+%d values each of L_mercury, L_C4, L_C5, L_infinity)" % (len(cases), len(lc)), corr_ok and not bad_total,
                    "mismatching cases: %s" % [describe(b) for b in sorted(bad_total)[:10]])
     dist = {}
     for c in cases:
@@ -635,6 +884,14 @@ def run(ctx):
     ctx.extra["input_distribution"] = dist
     if bad_total:
         # give the mismatch a replay (the model is the specification the theorems are about)
+        seen_kinds = set()
+        for x in sorted((x for x in bad_total if x in replays), key=lambda i: replays[i]["N"]):
+            kind = replays[x]["routine"]
+            if kind in seen_kinds:
+                continue
+            seen_kinds.add(kind)
+            ctx.violation("correspondence:%s" % kind, replays[x], True,
+                          "library output differs bitwise from the binary64 instance of the proved model (%s)" % (labels[x],))
         b = min((x for x in bad_total if x < len(cases)), key=lambda i: cases[i]["N"], default=None)
         if b is not None:
             ctx.violation("correspondence:%s" % cases[b]["routine"], replay_obj(cases[b], library=[float(x).hex() for x in expected[b]]),
